@@ -19,8 +19,8 @@ fn lerp(a: f64, b: f64, th: f64) -> f64 {
 
 fn n_sampled_chunks(tier: Tier) -> u64 {
     match tier {
-        Tier::Quick => 160,
-        Tier::Thorough => 8_000,
+        Tier::Quick => 2_500,
+        Tier::Thorough => 25_000,
     }
 }
 
